@@ -1,4 +1,5 @@
 import MinaProofs.Lemmas.FloatTimeline
+import MinaProofs.Lemmas.KindTimeline
 /-!
 # C04, closed form for float-valued animators
 
@@ -56,6 +57,66 @@ example : FloatCfg 2 [⟨0, .num 0⟩, ⟨1, .num 0⟩] exCfg := by
     simp only [List.mem_cons, List.mem_nil_iff, or_false] at hk
     rcases hk with rfl | rfl <;> simp at he <;> subst he <;> simp [isBuiltin]
   · intro f hf; simp only [List.mem_cons, List.mem_nil_iff, or_false] at hf; rcases hf with rfl | rfl <;> exact ⟨0, rfl⟩
+  · intro f hf; simp only [List.mem_cons, List.mem_nil_iff, or_false] at hf; rcases hf with rfl | rfl <;> simp
+  · simp
+
+/-! ## every value kind the derive supports (floats and primitive integers) -/
+
+/-- the timelines of an animator over a struct with animated fields `fields`: each state has none, or one
+built by the builder from a configuration whose keyframe values have their field's kind -/
+def KindAnimatorCfg (n : Nat) (fields : List (AnimField ℚ)) (timelines : List (Option (Merged ℚ))) : Prop :=
+  ∀ m, some m ∈ timelines → ∃ cfg, KindCfg n fields cfg ∧ m = Merged.mk [Timeline.build fields cfg]
+
+/-- **C04 for built timelines of any value kinds**: after any history, `set_state` leaves `current_values`
+exactly unchanged — integer properties included (a `u8` colour channel interpolates through `round` and a
+checked conversion, but at the moment of the state change the blended timeline still reproduces the
+current value exactly). -/
+theorem no_jump_built_animator (n : Nat) (fields : List (AnimField ℚ)) (timelines : List (Option (Merged ℚ)))
+    (s0 : Nat) (v0 : List (Val ℚ)) (hcfg : KindAnimatorCfg n fields timelines) (hv0 : KindVals n fields v0)
+    (ops : List (AnimOp ℚ)) (a a' : Animator ℚ) (s : Nat)
+    (hrun : (Animator.new timelines s0 v0).run ops = .ok a) (hset : a.setState s = .ok a') :
+    a'.values = a.values := by
+  apply no_jump_after_any_history (KindVals n fields) timelines s0 v0 hv0 _ ops a a' s hrun hset
+  intro m hm
+  obtain ⟨cfg, hc, rfl⟩ := hcfg m hm
+  exact build_tlOK_kind hc
+
+/-- … and every reachable animator holds values of the right kinds that are the current timeline evaluated
+at the time in state -/
+theorem reachable_good_built (n : Nat) (fields : List (AnimField ℚ)) (timelines : List (Option (Merged ℚ)))
+    (s0 : Nat) (v0 : List (Val ℚ)) (hcfg : KindAnimatorCfg n fields timelines) (hv0 : KindVals n fields v0)
+    (ops : List (AnimOp ℚ)) (a : Animator ℚ) (hrun : (Animator.new timelines s0 v0).run ops = .ok a) :
+    Good (KindVals n fields) a :=
+  good_run (KindVals n fields) _ a ops (good_initial (KindVals n fields) timelines s0 v0 hv0 (by
+    intro m hm
+    obtain ⟨cfg, hc, rfl⟩ := hcfg m hm
+    exact build_tlOK_kind hc)) hrun
+
+/-! Non-vacuity: a float and a `u8` property, the `u8` one with keyframes 200 → 7. -/
+def exKindCfg : Config ℚ :=
+  { easing := .builtin .inOutBack, delay := 0, duration := 3, repeat_ := Repeat.infinite, reverse := false,
+    keyframes := [⟨0, none, [some (.num 1), some (.int .u8 200)]⟩, ⟨1, none, [none, some (.int .u8 7)]⟩] }
+
+example : KindCfg 3 [⟨0, .num 0⟩, ⟨2, .int .u8 0⟩] exKindCfg := by
+  unfold exKindCfg
+  refine ⟨by norm_num, by norm_num, ?_, ?_, ?_, ?_, ?_, ?_, ?_⟩
+  · intro k hk; simp only [List.mem_cons, List.mem_nil_iff, or_false] at hk; rcases hk with rfl | rfl <;> norm_num
+  · simp
+  · intro k hk p hp x hx
+    simp only [List.mem_cons, List.mem_nil_iff, or_false] at hk
+    simp only [List.zipIdx_cons, List.zipIdx_nil, List.mem_cons, List.mem_nil_iff, or_false, zero_add] at hp
+    rcases hk with rfl | rfl <;> rcases hp with rfl | rfl <;> simp at hx <;> subst hx
+    · exact ⟨1, rfl⟩
+    · exact ⟨200, rfl, by decide, by decide⟩
+    · exact ⟨7, rfl, by decide, by decide⟩
+  · refine ⟨by simp [isBuiltin], ?_⟩
+    intro k hk e he
+    simp only [List.mem_cons, List.mem_nil_iff, or_false] at hk
+    rcases hk with rfl | rfl <;> simp at he
+  · intro f hf; simp only [List.mem_cons, List.mem_nil_iff, or_false] at hf
+    rcases hf with rfl | rfl
+    · exact ⟨0, rfl⟩
+    · exact ⟨0, rfl, by decide, by decide⟩
   · intro f hf; simp only [List.mem_cons, List.mem_nil_iff, or_false] at hf; rcases hf with rfl | rfl <;> simp
   · simp
 
